@@ -952,18 +952,19 @@ class Reaction(Object):
         # no references to model when copying
         model = self._model
         self._model = None
-        for i in self._metabolites:
-            i._model = None
-        for i in self._genes:
+        # each object gets back the model it had: the metabolites and genes of a
+        # reaction that was removed from its model may still belong to that model
+        owners = [(i, i._model) for i in self._metabolites] + [
+            (i, i._model) for i in self._genes
+        ]
+        for i, _ in owners:
             i._model = None
         # now we can copy
         new_reaction = deepcopy(self)
         # restore the references
         self._model = model
-        for i in self._metabolites:
-            i._model = model
-        for i in self._genes:
-            i._model = model
+        for i, owner in owners:
+            i._model = owner
         return new_reaction
 
     def __add__(self, other: "Reaction") -> "Reaction":
